@@ -12,6 +12,13 @@ def build_file(rows, fileseed, structured, eol, macros, hazard=False):
     rnd = core.rng_for("c10file", fileseed)
     gf = gen.GenFile(eol)
     gf.raw("// generated %s%s" % (fileseed, eol))
+    if rnd.random() < 0.5 and hazard != "spaced":
+        # the configured names used through a foreign module first (tracing::info!, other::warn!): those are somebody else's macros,
+        # and having seen them must not change what is made of the configured ones further down
+        for _m, _n in macros:
+            gf.raw('    zz_foreign::%s!("same name, other module");%s' % (_n, eol))
+            if "::" not in _m and rnd.random() < 0.5:
+                gf.raw('    %sx::%s!("look-alike module");%s' % (_m, _n, eol))
     for i, feat in enumerate(rows):
         marker = "S%s_%d" % (fileseed, i)
         pre, st, post = gen.build_stmt(feat, marker, rnd, macros=macros, eol=eol)
